@@ -172,6 +172,9 @@ func DecLeavesSmall() []reflect.Type {
 // Tag sets for struct fields.
 var Tags = []string{``, `json:"x"`, `json:",omitempty"`, `json:",string"`, `json:"-"`, `json:"x,omitempty,string"`}
 
+// TagZoo: member names given in tags (name or name,option).
+var TagZoo = []string{`a"b`, `a'b`, `a\\b`, "a`b", `a<b`, `a&b>`, `a b`, `é`, `a.b/c`, `ü1`, "a\u2028b", `[]{}`, `a:b`, `-,`, `a"b,omitempty`, `a<b,string`, `!#$%()*+-./:;=?@^_|~`}
+
 // MapKeys: key types of generated maps.
 func MapKeys() []reflect.Type {
 	return []reflect.Type{TString, TInt, TInt8, TUint64, reflect.TypeOf(TS("")), reflect.TypeOf(TV{})}
@@ -225,6 +228,13 @@ func Types(level int, decode bool) []reflect.Type {
 	for _, k := range MapKeys()[1:] {
 		add(reflect.MapOf(k, TInt))
 		add(reflect.MapOf(k, TIface))
+	}
+	// member names made of every class of character a tag may or may not carry (encoding/json
+	// takes the punctuation of isValidTag, letters and digits; anything else falls back to the
+	// field name): quotes, backslash, HTML specials, space, non-ASCII, line separators, the
+	// special name "-"
+	for _, n := range TagZoo {
+		add(reflect.StructOf([]reflect.StructField{{Name: "F", Type: TInt, Tag: reflect.StructTag(`json:` + strconv.Quote(n))}, {Name: "G", Type: TString}}))
 	}
 	for _, l := range small {
 		add(reflect.PtrTo(reflect.PtrTo(l)))
